@@ -1483,6 +1483,367 @@ def _strip_ids(s):
     return s
 
 
+# ===================================================================== behavioural isolation (wave 5)
+# Object identity is not enough: state shared through a class attribute, a module-level cache or a closure makes
+# connection B answer with what connection A has seen although no table object is shared.  Oracle: every answer a
+# connection gives inside an interleaved history of several live connections must equal the answer the same
+# connection gives when the operations addressed to it are run ALONE, in a process forked from the state right after
+# importing scrapli (a "pristine twin").  Both runs happen in forked children of one early-forked server process, so
+# neither sees anything earlier cases left behind and a reported history replays standalone.
+import pickle, struct
+
+BEH_PROMPTS = {   # sample device prompt per privilege level, per platform (what a device of that platform prints)
+    "cisco_iosxe": {"exec": "r1>", "privilege_exec": "r1#", "configuration": "r1(config)#", "tclsh": "r1(tcl)#"},
+    "arista_eos": {"exec": "r1>", "privilege_exec": "r1#", "configuration": "r1(config)#"},
+    "cisco_nxos": {"exec": "r1>", "privilege_exec": "r1#", "configuration": "r1(config)#", "tclsh": "r1-tcl#"},
+    "cisco_iosxr": {"privilege_exec": "RP/0/RP0/CPU0:r1#", "configuration": "RP/0/RP0/CPU0:r1(config)#",
+                    "configuration_exclusive": "RP/0/RP0/CPU0:r1(config)#"},
+    "juniper_junos": {"exec": "admin@r1>", "configuration": "admin@r1#", "configuration_exclusive": "admin@r1#",
+                      "configuration_private": "admin@r1#", "shell": "%", "root_shell": "root@r1:~ #"},
+    "acme_netos": {"exec": "r1>", "privilege_exec": "r1#", "configuration": "r1(conf)#"},
+    "single": {"exec": "r1>", "privilege_exec": "r1#", "configuration": "r1(conf)#"},
+}
+BEH_QUERY_PROMPTS = ["r1#", "r1>", "r1(config)#", "admin@edge1#", "admin@r1>", "admin@r1#", "leaf1(config-s-maint1)#", "r1(config-s-s1)#",
+                     "switch(config-s)#", "RP/0/RP0/CPU0:r1#", "r1(conf)#", "r1(tcl)#", "root@r1:~ #", "%", "no prompt at all", ""]
+
+
+class _Scripted:
+    """stands in for the channel during acquire_priv: a causal device that follows the connection's OWN privilege levels"""
+
+    def __init__(self, conn, platform, start):
+        self.conn, self.platform, self.cur, self.sent = conn, platform, start, []
+        self.comms_prompt_pattern = ""
+
+    def _prompt(self):
+        return BEH_PROMPTS[self.platform].get(self.cur) or f"r1(config-s-{self.cur[:6]})#"
+
+    def _input(self, x):
+        self.sent.append(x)
+        lv = self.conn.privilege_levels
+        for l in lv.values():
+            if l.escalate == x and l.previous_priv == self.cur:
+                self.cur = l.name
+                return
+        c = lv.get(self.cur)
+        if c is not None and c.deescalate == x and c.previous_priv:
+            self.cur = c.previous_priv
+
+
+class _ScriptedSync(_Scripted):
+    def get_prompt(self):
+        return self._prompt()
+
+    def send_input(self, channel_input, **kw):
+        self._input(channel_input)
+        return b"", b""
+
+    def send_inputs_interact(self, interact_events, **kw):
+        self._input(interact_events[0][0])
+        return b"", b""
+
+
+class _ScriptedAsync(_Scripted):
+    async def get_prompt(self):
+        return self._prompt()
+
+    async def send_input(self, channel_input, **kw):
+        self._input(channel_input)
+        return b"", b""
+
+    async def send_inputs_interact(self, interact_events, **kw):
+        self._input(interact_events[0][0])
+        return b"", b""
+
+
+def class_state_snap():
+    """mutable containers held by classes / modules of scrapli (class attributes and module globals): contents by value"""
+    import collections
+    kinds = (dict, list, set, collections.deque)
+    out = {}
+    for mn, m in list(sys.modules.items()):
+        if m is None or not (mn == "scrapli" or mn.startswith("scrapli.")):
+            continue
+        for an, v in list(vars(m).items()):
+            if isinstance(v, kinds) and not an.startswith("__"):
+                out[f"{mn}.{an}"] = _strip_ids(_val_snap(v))
+            elif isinstance(v, type) and getattr(v, "__module__", None) == mn:
+                for cn, cv in list(vars(v).items()):
+                    if isinstance(cv, kinds) and not cn.startswith("__"):
+                        out[f"{mn}.{v.__name__}.{cn}"] = _strip_ids(_val_snap(cv))
+    return out
+
+
+def beh_answer(f):
+    import asyncio
+    try:
+        r = f()
+        if inspect.iscoroutine(r):
+            r = asyncio.run(r)
+        return r
+    except Exception as e:
+        return ("raised", type(e).__name__)
+
+
+def beh_view(c):
+    return {"comms_prompt_pattern": c.comms_prompt_pattern, "failed_when_contains": list(getattr(c, "failed_when_contains", [])),
+            "levels": [list(map(str, x)) for x in privs_snap(getattr(c, "privilege_levels", {}))],
+            "timeout_ops": c._base_channel_args.timeout_ops, "timeout_socket": c._base_transport_args.timeout_socket,
+            "return_char": c._base_channel_args.comms_return_char, "transport_options": repr(c._base_transport_args.transport_options),
+            "generic_mode": getattr(c, "_generic_driver_mode", None), "current": getattr(getattr(c, "_current_priv_level", None), "name", None),
+            "desired": getattr(c, "default_desired_privilege_level", None)}
+
+
+def beh_run(ops):
+    """(in a pristine forked child) run a history on real connections; answers per connection + class-level state changes"""
+    import logging, warnings
+    warnings.simplefilter("ignore")
+    logging.getLogger("scrapli").setLevel(logging.CRITICAL)
+    plats = make_synthetic()
+    before = class_state_snap()
+    answers, slots, plat_of = {}, {}, {}
+    with Community(plats):
+        for op in ops:
+            k, i = op[0], op[1]
+            if k == "c":
+                iso_apply(op, slots, plats)
+                plat_of[i] = (op[2][1], op[2][2])
+                answers.setdefault(i, []).append(["constructed", type(slots[i]).__name__])
+                continue
+            c = slots.get(i)
+            if c is None:
+                continue
+            if k == "q":
+                a = beh_answer(lambda: list(c._determine_current_priv(current_prompt=op[2])))
+            elif k == "a":
+                def f():
+                    act, lv = c._process_acquire_priv(destination_priv=op[3], current_prompt=op[2])
+                    return [act.name, lv.name, c._current_priv_level.name]
+                a = beh_answer(f)
+            elif k == "k":
+                platform, is_async = plat_of[i]
+                start = op[2] if op[2] in c.privilege_levels else next(iter(c.privilege_levels), "exec")
+                ch = (_ScriptedAsync if is_async else _ScriptedSync)(c, platform, start)
+                real = c.channel
+                c.channel = ch
+
+                def f():
+                    r = c.acquire_priv(desired_priv=op[3])
+                    if inspect.iscoroutine(r):
+                        import asyncio
+                        asyncio.run(r)
+                    return [list(ch.sent), ch.cur, c._current_priv_level.name]
+                a = beh_answer(f)
+                c.channel = real
+            elif k == "v":
+                a = beh_view(c)
+            else:
+                iso_apply(op, slots, plats)
+                a = None
+            if a is not None:
+                answers.setdefault(i, []).append([k, list(op[2:]), a])
+    after = class_state_snap()
+    changed = sorted(k for k in set(before) | set(after) if before.get(k) != after.get(k))
+    return {"answers": {str(i): v for i, v in answers.items()},
+            "class_state": {k: [repr(before.get(k))[:200], repr(after.get(k))[:200]] for k in changed}}
+
+
+class PristineServer:
+    """a child forked before any connection exists; runs each request in a further fork of that pristine state"""
+
+    def __init__(self):
+        self.req_r, self.req_w = os.pipe()
+        self.res_r, self.res_w = os.pipe()
+        sys.stdout.flush()
+        sys.stderr.flush()
+        self.pid = os.fork()
+        if self.pid == 0:
+            os.close(self.req_w)
+            os.close(self.res_r)
+            self._serve()
+        os.close(self.req_r)
+        os.close(self.res_w)
+        self.wf, self.rf = os.fdopen(self.req_w, "wb"), os.fdopen(self.res_r, "rb")
+
+    def _serve(self):
+        try:
+            rf, wf = os.fdopen(self.req_r, "rb"), os.fdopen(self.res_w, "wb")
+            while True:
+                hdr = rf.read(4)
+                if len(hdr) < 4:
+                    break
+                req = pickle.loads(rf.read(struct.unpack(">I", hdr)[0]))
+                r, w = os.pipe()
+                pid = os.fork()
+                if pid == 0:
+                    os.close(r)
+                    try:
+                        out = ("ok", beh_run(req))
+                    except BaseException as e:  # noqa
+                        out = ("err", repr(e))
+                    with os.fdopen(w, "wb") as f:
+                        f.write(pickle.dumps(out))
+                    os._exit(0)
+                os.close(w)
+                with os.fdopen(r, "rb") as f:
+                    data = f.read()
+                os.waitpid(pid, 0)
+                wf.write(struct.pack(">I", len(data)) + data)
+                wf.flush()
+        finally:
+            os._exit(0)
+
+    def call(self, ops):
+        data = pickle.dumps(list(ops))
+        self.wf.write(struct.pack(">I", len(data)) + data)
+        self.wf.flush()
+        hdr = self.rf.read(4)
+        if len(hdr) < 4:
+            raise RuntimeError("pristine server died")
+        st, res = pickle.loads(self.rf.read(struct.unpack(">I", hdr)[0]))
+        if st != "ok":
+            raise RuntimeError(f"pristine run failed: {res}")
+        return res
+
+    def close(self):
+        try:
+            self.wf.close()
+            self.rf.close()
+            os.waitpid(self.pid, 0)
+        except Exception:
+            pass
+
+
+def beh_eval(server, ops):
+    """violations of behavioural isolation of one history: [(kind, what, details)]"""
+    full = server.call(ops)
+    viols = []
+    for j in sorted({o[1] for o in ops if o[0] == "c"}):
+        solo = server.call([o for o in ops if o[1] == j])
+        fa, sa = full["answers"].get(str(j), []), solo["answers"].get(str(j), [])
+        for n, (x, y) in enumerate(zip(fa, sa)):
+            if x != y:
+                viols.append(("behaviour", f"connection {j} answers differently when other connections are alive (operation {x[0]})",
+                              {"connection": j, "answer_index": n, "operation": x[:2], "with_others": repr(x[2])[:300], "alone": repr(y[2])[:300]}))
+                break
+        if len(fa) != len(sa):
+            viols.append(("behaviour", f"connection {j}: number of answers differs", {"connection": j}))
+    for k, (b, a) in full["class_state"].items():
+        viols.append(("class-state", f"class / module level mutable state {k} changed while connections were used",
+                      {"attribute": k, "before": b, "after": a}))
+    return viols
+
+
+def shrink_beh(server, ops, kind, budget=40):
+    cur = list(ops)
+    i = len(cur) - 1
+    while i >= 0 and budget > 0:
+        trial = cur[:i] + cur[i + 1:]
+        budget -= 1
+        try:
+            if any(k == kind for k, _, _ in beh_eval(server, trial)):
+                cur = trial
+        except Exception:
+            pass
+        i -= 1
+    return cur
+
+
+def gen_beh_histories(ck, tier):
+    rng = ck.rng
+    out = []
+    specs = [(v, p, a) for p in CORE + ISO_COMMUNITY for v in ("direct", "factory") for a in (False, True) if not (v == "direct" and p not in CORE)]
+    # directed: every ordered pair of platforms (one path / stack combination each, rotating), same byte-identical prompts asked of both
+    plist = list(CORE + ISO_COMMUNITY)
+    n = 0
+    for p1 in plist:
+        for p2 in plist:
+            s1 = [x for x in specs if x[1] == p1][n % len([x for x in specs if x[1] == p1])]
+            s2 = [x for x in specs if x[1] == p2][(n // 2) % len([x for x in specs if x[1] == p2])]
+            n += 1
+            h = [("c", 0, s1), ("c", 1, s2)]
+            for pr in rng.sample(BEH_QUERY_PROMPTS, 4) + [BEH_PROMPTS[p1].get("configuration", "r1#"), BEH_PROMPTS[p2].get("exec", "r1#")]:
+                h += [("q", 0, pr), ("q", 1, pr)]
+            lv2 = list(BEH_PROMPTS[p2])
+            h += [("a", 0, BEH_PROMPTS[p1][list(BEH_PROMPTS[p1])[0]], list(BEH_PROMPTS[p1])[-1] if p1 != "juniper_junos" else "configuration"),
+                  ("a", 1, BEH_PROMPTS[p2][lv2[0]], lv2[1] if len(lv2) > 1 else lv2[0]),
+                  ("k", 0, list(BEH_PROMPTS[p1])[0], "configuration"), ("k", 1, "configuration", lv2[0]), ("v", 0), ("v", 1)]
+            out.append(h)
+    # sessions: A registers, B (same platform, no session) sees the session prompt
+    for p in ("arista_eos", "cisco_nxos"):
+        for a1, a2 in ((False, False), (False, True), (True, True)):
+            sp = "leaf1(config-s-maint1)#" if p == "arista_eos" else "leaf1(config-s)#"
+            out.append([("c", 0, ("factory", p, a1)), ("c", 1, ("direct", p, a2)), ("r", 0, "maint1"), ("q", 0, sp), ("q", 1, sp),
+                        ("k", 0, "privilege_exec", "maint1"), ("k", 1, "privilege_exec", "configuration"), ("q", 1, sp), ("v", 1),
+                        ("c", 2, ("factory", p, a2)), ("q", 2, sp), ("a", 2, sp, "privilege_exec"), ("v", 0)])
+    if tier == "quick":
+        out = out[::2] + out[-6:]
+    # random: 2..3 connections, interleaved mutations and queries
+    for _ in range(60 if tier == "quick" else 1500):
+        nconn = rng.choice([2, 2, 3])
+        h, live = [], {}
+        for i in range(nconn):
+            live[i] = rng.choice(specs)
+            h.append(("c", i, live[i]))
+        for _ in range(rng.choice([6, 10, 16])):
+            i = rng.randrange(nconn)
+            p = live[i][1]
+            r = rng.random()
+            lvls = list(BEH_PROMPTS[p])
+            if r < 0.35:
+                h.append(("q", i, rng.choice(BEH_QUERY_PROMPTS + list(BEH_PROMPTS[p].values()))))
+            elif r < 0.5:
+                h.append(("a", i, rng.choice(list(BEH_PROMPTS[p].values()) + BEH_QUERY_PROMPTS[:6]), rng.choice(lvls + ["s1", "nope"])))
+            elif r < 0.62:
+                h.append(("k", i, rng.choice(lvls), rng.choice(lvls + ["s1"])))
+            elif r < 0.7:
+                h.append(("v", i))
+            elif r < 0.78:
+                h.append(("r", i, rng.choice(["s1", "maint1", "exec"])))
+            elif r < 0.86:
+                h.append(("e", i, rng.choice(lvls), rng.choice([None, "^P$", r"^r1[#>]$"]), rng.choice([None, "x", "#"])))
+            elif r < 0.9:
+                h.append((rng.choice(["fa", "n", "d"]), i, rng.choice(["% a", "new1", "configuration"])))
+            elif r < 0.94:
+                h.append((rng.choice(["t", "p", "g", "x", "fc"]), i))
+            else:
+                live[i] = rng.choice(specs)
+                h.append(("c", i, live[i]))
+        out.append(h)
+    return out
+
+
+def beh_phase(ck, server, histories):
+    deferred = []
+    for ops in histories:
+        try:
+            viols = beh_eval(server, ops)
+        except Exception as e:
+            ck.proof_broken("harness: behavioural history raised", f"{ops}: {e!r}")
+            break
+        nconn = len({o[1] for o in ops if o[0] == "c"})
+        ck.case(("beh", repr(ops)), nontrivial=nconn >= 2 and any(o[0] in "qak" for o in ops), sample=ops_desc(ops),
+                tags=("kind=behaviour", f"conns={nconn}", f"len={min(len(ops), 20)}") + tuple(sorted({"bop=" + o[0] for o in ops})))
+        beh = [v for v in viols if v[0] == "behaviour"]
+        if beh and not ck.violations:
+            small = shrink_beh(server, ops, "behaviour")
+            v2 = [v for v in beh_eval(server, small) if v[0] == "behaviour"]
+            if v2:
+                ops, beh = small, v2
+        for kind, what, more in beh:
+            ck.violation({"kind": "behaviour", **ops_desc(ops), **more}, what, matcher)
+        # shared class-level state is reported after the behavioural differences it causes (a visible wrong answer is the better witness)
+        for v in viols:
+            if v[0] == "class-state" and v[2]["attribute"] not in {x[1] for x in deferred}:
+                deferred.append((ops, v[2]["attribute"], v))
+    for ops, attr, (kind, what, more) in deferred:
+        if not ck.violations:
+            small = shrink_beh(server, ops, "class-state")
+            v2 = [v for v in beh_eval(server, small) if v[0] == "class-state" and v[2]["attribute"] == attr]
+            if v2:
+                ops, (kind, what, more) = small, v2[0]
+        ck.violation({"kind": "behaviour", **ops_desc(ops), **more}, what, matcher)
+
+
 def run(tier, seed):
     ck = Check(PID, tier, seed, level="proof")
     ck.rule = ("factory cases = (stack sync|async, platform, variant, keyword arguments): exhaustive = every factory parameter x every value of "
@@ -1496,7 +1857,11 @@ def run(tier, seed):
                "factory, sync and async: exhaustive to length N over a 10-op alphabet, directed per platform, random to length 12. After "
                "EVERY step: module-level PRIVS/FAILED_WHEN_CONTAINS of all five platforms, SCRAPLI_PLATFORM dicts and all other "
                "connections unchanged, no mutable object shared between owners; final tables vs the Lean heap model. Non-trivial = a "
-               "supplied argument beyond host / a rejection (factory), >= 2 connections and >= 1 mutation (isolation).")
+               "supplied argument beyond host / a rejection (factory), >= 2 connections and >= 1 mutation (isolation). Behavioural histories = 2-3 live "
+               "connections (all platform pairs, direct / factory, sync / asyncio) with interleaved queries (_determine_current_priv, _process_acquire_priv, "
+               "acquire_priv over a scripted channel, value views) and mutations, each run in a process forked from the pristine post-import state; every "
+               "answer must equal the answer of the same connection run alone in another pristine fork, and no class / module level mutable container of "
+               "scrapli.* may change.")
     ck.trusted = ["Lean 4.33.0 kernel; axioms of every theorem audited ⊆ {propext, Classical.choice, Quot.sound}",
                   "tools/gen/c18.py (AST -> tables; round-trip checked every run against inspect.signature / imported PRIVS via the Lean driver)",
                   "correspondence harness props/c18.py (recorder replaces the candidate classes' __init__; sys.modules injection of synthetic community platforms)"]
@@ -1520,6 +1885,7 @@ def run(tier, seed):
         if tier == "thorough":
             ck.leanchecker("ScrapliProps.C18")
         setup_live()
+        server = PristineServer()   # forked now: scrapli imported, no connection constructed yet
         own = VERIF / "findings" / "C18.json"
         if own.exists():   # until the lead has merged it into known_findings.json
             have = {f["id"] for f in ck.findings}
@@ -1538,6 +1904,8 @@ def run(tier, seed):
         user_shared_mutables(ck)
         positional_order_advisory(ck)
         search = run_cases(ck, fac_cases, iso_cases, tmp.name)
+        corpus_beh = [[tuple(tuple(x) if isinstance(x, list) else x for x in o) for o in c["ops"]] for c in corpus if c["kind"] == "behaviour"]
+        beh_phase(ck, server, corpus_beh + gen_beh_histories(ck, tier))
         if ck.broken and not ck.violations:
             # directed search: widen generation (another PRNG stream, thorough-size random part) for a real failing input
             ck.extra["directed_search"] = "proof/correspondence broken: widened generation"
@@ -1550,6 +1918,8 @@ def run(tier, seed):
         ck.extra["programs"] = ck.traces_validated
     finally:
         os.unlink(tmp.name)
+        if "server" in locals():
+            server.close()
     return ck.finish()
 
 
@@ -1567,6 +1937,14 @@ def replay(path):
         if v.get("kind") == "isolation" and "ops" in v:
             ops = [tuple(tuple(x) if isinstance(x, list) else x for x in o) for o in v["ops"]]
             iso_history(ck, ops, make_synthetic, lines, pending, matcher)
+        elif v.get("kind") == "behaviour" and "ops" in v:
+            ops = [tuple(tuple(x) if isinstance(x, list) else x for x in o) for o in v["ops"]]
+            server = PristineServer()
+            try:
+                for kind, what, more in beh_eval(server, ops):
+                    ck.violation({"kind": "behaviour", **ops_desc(ops), **more}, what, matcher)
+            finally:
+                server.close()
         elif v.get("kind") == "factory":
             factory_case(ck, undescribe(v, tmp.name), make_synthetic(), tmp.name, lines, pending, matcher)
         else:
